@@ -292,6 +292,7 @@ static void check_state(const World& w, Errs& e)
         if (ri != rm)
         {
             if (mexc) e.add("C02:query-" + q.kind + "-exception", q.name + ": expected " + rm.substr(4) + ", got " + ri + " on \"" + txt(w.model) + "\"");
+            else if (q.kind.compare(0, 4, "C14:") == 0) e.add(q.kind, q.name + " of this string is " + ri + " but an equal string built afresh hashes to " + rm + " (\"" + txt(w.model) + "\")");
             else e.add("query-" + q.kind, q.name + " = " + ri + ", std::basic_string gives " + rm + " on \"" + txt(w.model) + "\"");
             if (e.v.size() >= 6) return;
         }
